@@ -30,6 +30,18 @@
 (*   feat   "full" | "min": optional features of the model registries      *)
 (*          (min: no tag delete API, no mount, no single-POST upload,      *)
 (*          pages of one entry)                                            *)
+(*          round 5: "rl-ok" | "rl-low" | "rl-rec": the registries send    *)
+(*          RateLimit-Limit / RateLimit-Remaining with every manifest      *)
+(*          reply (enough left | too low, never recovers | too low for the *)
+(*          first manifest request of a run, then enough);                 *)
+(*          "nohd": no Docker-Content-Digest header on manifest / blob     *)
+(*          replies (the head bindings fall back to a GET);                *)
+(*          "dmg": the body of config blob C2 is served with wrong bytes   *)
+(*          (same length), so a read of the BODY fails after the request   *)
+(*          succeeded ("trunc", a body cut off in the middle, is realised  *)
+(*          by the driver but not generated: regclient retries with Range  *)
+(*          requests and the outcome depends on reghttp's backoff clock);  *)
+(*          suffix "+c1" = host setting `reqConcurrent: 1` for both hosts  *)
 (*   tmo    where the script timeout is configured: "default" (defaults:)  *)
 (*          "script" (per script) "none" (nowhere) "short" (2 s for the    *)
 (*          first script only; with the tag `slow`, which the registries   *)
@@ -171,9 +183,46 @@ FollowUps == {<<S("image.copy", "a1", "v1", "b1", "new"), S("image.config", "a1"
               <<S("image.exportTar", "lay", "v1", "out", ""), S("tag.ls", "a1", "", "", "")>>,
               <<S("image.config", "lay", "v1", "", ""), S("image.importTar", "a2", "new", "good", "")>>}
 
-(* ------------------------------ configs -------------------------------- *)
 Cfg(w, p, ss) == [world |-> w, mt |-> "oci", feat |-> "full", tmo |-> "default", cmd |-> "once", verb |-> "info", logfmt |-> "json",
                   cfgin |-> "file", par |-> p, scripts |-> ss]
+(* round 5: reads under registry rate-limit headers; failures while a blob BODY is read *)
+RlOne == {Sq(S("image.ratelimitWait", r[1], r[2], "", "")) : r \in {<<"a1", "v1">>, <<"a1", "ix">>, <<"lay", "v1">>, <<"b1", "v1">>}}
+         \cup {<<S(p, "a1", "v1", "", ""), S(c, "", "", "", "")>> : p \in {"manifest.get", "manifest.head"}, c \in {"m:ratelimitWait", "m:ratelimit"}}
+         \cup {<<S("image.ratelimitWait", "a1", "v1", "", ""), S("image.ratelimitWait", "a1", "v1", "", "")>>,
+               <<S("if.head", "a1", "v1", "", ""), S("image.ratelimitWait", "a1", "v1", "", ""), S("tag.ls", "a1", "", "", "")>>,
+               <<P(S("image.ratelimitWait", "a1", "none", "", "")), S("image.ratelimitWait", "a1", "v1", "", "")>>,
+               <<S("image.ratelimitWait", "a1", "v1", "", ""), S("image.copy", "a1", "v1", "b1", "new")>>,
+               <<S("tag.ls", "a1", "", "", ""), S("manifest.get", "a1", "ix", "", ""), S("image.config", "a1", "v1", "", "")>>,
+               <<S("manifest.getList", "a1", "ix", "", ""), S("m:get", "", "", "", "")>>,
+               <<S("image.copy", "a1", "v1", "b1", "new"), S("manifest.head", "b1", "new", "", "")>>}
+\* every read binding that asks for a head / a digest, and writes fed by them, on a registry without digest headers
+NoHdOne == {Sq(S(op, r[1], r[2], "", "")) : op \in {"manifest.head", "manifest.get", "manifest.getList", "image.config", "tag.delete"},
+                                           r \in {<<"a1", "v1">>, <<"a1", "ix">>, <<"a1", "none">>, <<"a1", "M1">>}}
+           \cup {Sq(S(op, "a1", "", b, "")) : op \in {"blob.head", "blob.get"}, b \in {"C1", "ZZ"}}
+           \cup {<<S("manifest.head", "a1", "v1", "", ""), S(c, "", "", "", "")>> : c \in {"m:get", "m:head", "m:delete", "m:export"}}
+           \cup {<<S("manifest.head", "a1", "ix", "", ""), S("m:put", "b1", "new", "", "")>>,
+                 <<S("blob.head", "a1", "", "C1", ""), S("blob.put", "b1", "", "$b", "")>>,
+                 <<S("ifnot.head", "b1", "new", "", ""), S("image.copy", "a1", "v1", "b1", "new"), S("tag.ls", "b1", "", "", "")>>,
+                 <<S("if.head", "a1", "v1", "", ""), S("tag.delete", "a1", "v1", "", ""), S("tag.ls", "a1", "", "", "")>>,
+                 <<F("a1", "1"), S("manifest.head", "@", "", "", "")>>,
+                 <<S("image.copy", "a1", "ix", "b1", "new"), S("manifest.head", "b1", "new", "", "")>>}
+DmgRead == {Sq(S("image.config", "a1", "M2", "", "")), Sq(S("image.exportTar", "a1", "M2", "out", "")),
+            Sq(S("image.config", "b1", "v1", "", "")), Sq(S("image.config", "a1", "v1", "", "")),
+            <<S("blob.get", "a1", "", "C2", ""), S("blob.put", "b1", "", "$b", "")>>,
+            <<P(S("image.config", "a1", "M2", "", "")), S("image.config", "a1", "v1", "", "")>>,
+            Sq(S("image.copy", "a1", "M2", "b1", "new")), Sq(S("image.copy", "a1", "ix", "lay", "new"))}
+DmgFail == {S("image.config", "a1", "M2", "", ""), S("image.exportTar", "a1", "M2", "out", "")}
+DmgFollow == {<<S("image.copy", "a1", "v1", "b1", "new"), S("image.config", "a1", "v1", "", "")>>,
+              <<S("tag.ls", "a1", "", "", ""), S("manifest.head", "a1", "ix", "", "")>>}
+\* the body read fails as often as the default per-host limit of concurrent requests (3), in one
+\* script (protected) or in three scripts; then a script that reads intact images of that registry
+DmgIso == {Cfg("A", p, <<<<P(f), P(f), f>>, u>>) : p \in {0, 1}, f \in DmgFail, u \in DmgFollow}
+          \cup {Cfg("A", p, <<<<P(f), P(f), P(f), S("tag.ls", "a1", "", "", "")>>, u>>) : p \in {0, 2}, f \in DmgFail, u \in DmgFollow}
+          \cup {Cfg("A", 0, <<<<P(f), f>>, <<P(f), f>>, u>>) : f \in DmgFail, u \in DmgFollow}
+DmgIso1 == {Cfg("A", p, <<Sq(f), u>>) : p \in {0, 1}, f \in DmgFail, u \in DmgFollow}
+           \cup {Cfg("A", 0, <<<<P(f), S("image.config", "a1", "v1", "", "")>>>>) : f \in DmgFail}
+
+(* ------------------------------ configs -------------------------------- *)
 One == Singles \cup Chains \cup AfterW \cup Guarded \cup Loops \cup Errors \cup Mixed \cup Forms
 UsesLay(s) == \E i \in 1..Len(s) : "lay" \in {s[i].l1, s[i].l2}
 IsoBase ==
@@ -212,6 +261,11 @@ Configs ==
   \cup {[c EXCEPT !.tmo = t] : c \in IsoBase, t \in {"default", "script", "none"}}
   \cup {[Cfg("A", p, <<f, u>>) EXCEPT !.tmo = "short"] : p \in {0, 1, 2}, f \in FailTimeout, u \in FollowUps}
   \cup {[Cfg("A", 0, <<s>>) EXCEPT !.cmd = "server"] : s \in ServerOne}
+  \cup {[Cfg("A", 0, <<s>>) EXCEPT !.feat = f] : s \in RlOne, f \in {"rl-ok", "rl-low", "rl-rec"}}
+  \cup {[Cfg("A", 0, <<s>>) EXCEPT !.feat = "nohd"] : s \in RlOne \cup NoHdOne}
+  \cup {[Cfg("A", 0, <<s>>) EXCEPT !.feat = f] : s \in DmgRead, f \in {"dmg"}}
+  \cup {[c EXCEPT !.feat = f] : c \in DmgIso, f \in {"dmg"}}
+  \cup {[c EXCEPT !.feat = f] : c \in DmgIso1, f \in {"dmg+c1", "full+c1"}}
   \cup {[Cfg("A", 1, <<f, u>>) EXCEPT !.cmd = "server"] : f \in FailInside \cup FailError, u \in FollowUps}
 
 (* ------------------------- execution by (D) ---------------------------- *)
